@@ -1,6 +1,6 @@
 (* C18 property theorems: statements only, each closed by [exact]. *)
 From Boltons Require Import Lib.Prelude Spec.C18_Spec Model.C18_Model
-  Proofs.C18_Bytes Proofs.C18_Mfr Proofs.C18_Utf8 Proofs.C18_StringRun.
+  Proofs.C18_Bytes Proofs.C18_Mfr Proofs.C18_Utf8 Proofs.C18_StringRun Gen.C18_Gen Proofs.C18_Source.
 Open Scope N_scope.
 
 (* SpooledBytesIO: for EVERY max_size and every history of the listed calls
@@ -70,6 +70,17 @@ Theorem C18_string_max_independent_partial :
   ss_run (ss_init max1 chunk1) ops = ss_run (ss_init max2 chunk2) ops.
 Proof. exact string_max_independent. Qed.
 Print Assumptions C18_string_max_independent_partial.
+
+(* the same at the READ_CHUNK_SIZE the source has today (Gen/C18_Gen.v is regenerated
+   from /repo/boltons/ioutils.py on every run): the side condition 1 <= chunk is
+   discharged for that value *)
+Theorem C18_string_source_chunk_partial : forall (max : nat) (ops : list fop) (r : list step_obs),
+  Forall op_valid ops ->
+  writes_odd_break ops = false \/ existsb is_line_op ops = false ->
+  ref_run KString rf_empty ops = Some r ->
+  ss_run (ss_init max (N.to_nat gen_read_chunk_size)) ops = r.
+Proof. exact string_refines_reference_at_source_chunk. Qed.
+Print Assumptions C18_string_source_chunk_partial.
 
 (* multi-byte characters of every UTF-8 length, a rollover in the middle
    (max_size 9), a read that leaves a character in the reader's look-ahead
